@@ -9,8 +9,7 @@ outputs of the implementation; `witness N` prints the script replaying witness N
 open Cppcms Cppcms.C18
 
 structure St where
-  now : Int := 0
-  dir : Dir := Dir.empty
+  w : World := ⟨0, Dir.empty⟩
   names : List String := []       -- every name ever created, for `ls`
   out : List String := []
 
@@ -46,44 +45,45 @@ def insertSorted (s : String) : List String → List String
   | [] => [s]
   | x :: xs => if s == x then x :: xs else if s < x then s :: x :: xs else x :: insertSorted s xs
 
+/-- every state change goes through `Cppcms.C18.step` (the function `history_load_partial` is about) -/
 def runOp (st : St) (op : List String) : Option St :=
   let emit (st : St) (s : String) : St := { st with out := s :: st.out }
   match op with
   | ["flock", _] => some (emit st "ok")
-  | ["now", n] => n.toInt?.map fun v => emit { st with now := v } "ok"
+  | ["now", n] => n.toInt?.map fun v => emit { st with w := step st.w (.setClock v) } "ok"
   | ["put", name, h] =>
     if !goodName name then none else
-    (parseHex h).map fun d => emit { st with dir := Dir.put st.dir (nameBytes name) d, names := insertSorted name st.names } "ok"
+    (parseHex h).map fun d => emit { st with w := { st.w with dir := Dir.put st.w.dir (nameBytes name) d }, names := insertSorted name st.names } "ok"
   | ["save", sid, t, h] =>
     if !goodName sid || sid.length < 4 then none else
     match t.toInt?, parseHex h with
     | some t, some d =>
       let ws := saveWrites t d
-      some (emit { st with dir := save (nameBytes sid) t d st.dir, names := insertSorted sid st.names } ("w=" ++ writeLog ws ws.length 0))
+      some (emit { st with w := step st.w (.save (nameBytes sid) t d), names := insertSorted sid st.names } ("w=" ++ writeLog ws ws.length 0))
     | _, _ => none
   | ["csave", sid, t, h, k, j, s, mask] =>
     if !goodName sid || sid.length < 4 then none else
     match t.toInt?, parseHex h, k.toNat?, j.toNat?, s.toNat?, parseMask mask with
     | some t, some d, some k, some j, some s, some T =>
       if s == 0 then none else
-      some (emit { st with dir := crashSave s (nameBytes sid) t d k j T st.dir, names := insertSorted sid st.names }
+      some (emit { st with w := step st.w (.crashSave s (nameBytes sid) t d k j T), names := insertSorted sid st.names }
         ("w=" ++ writeLog (saveWrites t d) k j))
     | _, _, _, _, _, _ => none
   | ["load", sid] =>
     if !goodName sid || sid.length < 4 then none else
-    let (r, dir') := load st.now (nameBytes sid) st.dir
-    some (emit { st with dir := dir' } (showLoad r))
+    let r := (load st.w.now (nameBytes sid) st.w.dir).1
+    some (emit { st with w := step st.w (.load (nameBytes sid)) } (showLoad r))
   | ["probe", name] =>
     if !goodName name then none else
-    match st.dir (nameBytes name) with
+    match st.w.dir (nameBytes name) with
     | none => some (emit st "none")
-    | some f => some (emit st (showLoad (readFromFile st.now f)))
+    | some f => some (emit st (showLoad (readFromFile st.w.now f)))
   | ["remove", sid] =>
     if !goodName sid || sid.length < 4 then none else
-    some (emit { st with dir := remove (nameBytes sid) st.dir } "ok")
-  | ["gc"] => some (emit { st with dir := gc st.now st.dir } "ok")
+    some (emit { st with w := step st.w (.remove (nameBytes sid)) } "ok")
+  | ["gc"] => some (emit { st with w := step st.w .gc } "ok")
   | ["ls"] =>
-    let ents := st.names.filterMap fun n => (st.dir (nameBytes n)).map fun f => s!"{n}:{toHex f}"
+    let ents := st.names.filterMap fun n => (st.w.dir (nameBytes n)).map fun f => s!"{n}:{toHex f}"
     some (emit st (if ents.isEmpty then "-" else ",".intercalate ents))
   | _ => none
 
